@@ -559,10 +559,13 @@ impl World {
 
     /// Fault::OutputClosed: point file descriptors 1 and 2 of THIS process at a pipe nobody reads
     pub fn output_closed_fault(&mut self, nth: u32) {
-        let hit = self.sc.faults.iter().any(|f| matches!(f, Fault::OutputClosed { nth: n } if *n == nth));
-        if !hit {
+        let hit = self.sc.faults.iter().find_map(|f| match f {
+            Fault::OutputClosed { nth: n, which } if *n == nth => Some(*which),
+            _ => None,
+        });
+        let Some(which) = hit else {
             return;
-        }
+        };
         extern "C" {
             fn dup2(oldfd: i32, newfd: i32) -> i32;
         }
@@ -570,12 +573,21 @@ impl World {
             use std::os::fd::AsRawFd;
             drop(r);
             unsafe {
-                dup2(w.as_raw_fd(), 1);
-                dup2(w.as_raw_fd(), 2);
+                if which != 2 {
+                    dup2(w.as_raw_fd(), 1);
+                }
+                if which != 1 {
+                    dup2(w.as_raw_fd(), 2);
+                }
             }
             drop(w);
             self.log(LogEv::Fault {
-                kind: "output_closed".into(),
+                kind: match which {
+                    1 => "output_closed:stdout",
+                    2 => "output_closed:stderr",
+                    _ => "output_closed",
+                }
+                .into(),
                 pid: None,
             });
         }
